@@ -76,15 +76,31 @@ Theorem C13_misordered_dropped_only :
 Proof. exact misordered_dropped_only. Qed.
 Print Assumptions C13_misordered_dropped_only.
 
-(* rows are skipped exactly when a documented reason holds, and the reported reason is a true one *)
+(* rows are skipped exactly when a documented reason holds, and the reported reason is a true one.
+   [documented_reason] is the property's notion: the distance reasons are evaluated on the geodesic of the two
+   airports called (lon, lat, lon, lat) — the specification switches. *)
 Theorem C13_skip_iff_documented_reason :
+  forall offO offD geod excl year r ko kd o d miles s,
+    ((exists k, import_row offO offD geod spec_flags excl year r ko kd o d miles s = Skipped k)
+     <-> (exists k, documented_reason geod excl r ko kd o d miles k))
+    /\ (forall k, import_row offO offD geod spec_flags excl year r ko kd o d miles s = Skipped k ->
+                  documented_reason geod excl r ko kd o d miles k).
+Proof. exact skip_iff_documented_reason_spec. Qed.
+Print Assumptions C13_skip_iff_documented_reason.
+
+(* NOT a statement about the property: for any switches — in particular the code as found, which calls the
+   geodesic with latitude and longitude exchanged (F10) — a skip agrees with [reason_holds] evaluated AT THOSE
+   SWITCHES, i.e. with the distance the code itself computed.  A row dropped because of F10 is "dropped for a
+   reason" only in this as-found sense; under [C13_skip_iff_documented_reason] it is a violation
+   (C13_distance_args_before_fix_refuted). *)
+Theorem C13_skip_agrees_with_the_rule_as_coded_any_switches :
   forall offO offD geod fl excl year r ko kd o d miles s,
     ((exists k, import_row offO offD geod fl excl year r ko kd o d miles s = Skipped k)
      <-> (exists k, reason_holds geod fl excl r ko kd o d miles k))
     /\ (forall k, import_row offO offD geod fl excl year r ko kd o d miles s = Skipped k ->
                   reason_holds geod fl excl r ko kd o d miles k).
 Proof. exact skip_iff_documented_reason. Qed.
-Print Assumptions C13_skip_iff_documented_reason.
+Print Assumptions C13_skip_agrees_with_the_rule_as_coded_any_switches.
 
 (* a valid row between known airports whose stated distance is within max(50 km, 10 %) of the geodesic
    distance (or is not stated) is imported, with exactly the schedule above — specification switches *)
@@ -147,6 +163,36 @@ Example C13_nonvacuous :
   /\ expand 17965 17965 [7] = [17965] /\ expand 17965 17965 [1] = [].
 Proof. exact expand_nonvacuous. Qed.
 
+(* the recorded effective dates are the row's own dates, or 1 January / 31 December of the data year
+   (calendar swept 1970-2099) *)
+Theorem C13_recorded_effective_dates :
+  forall offO offD geod fl excl year r ko kd o d miles s mask dep arr ad efrom eto cnt insts w,
+    import_row offO offD geod fl excl year r ko kd o d miles s = Imported (mask, dep, arr, ad, efrom, eto, cnt) insts w ->
+    sweep_first_year <= year <= sweep_last_year ->
+    (forall c, s_from s = Some c -> date_in_calendar c) -> (forall c, s_to s = Some c -> date_in_calendar c) ->
+    efrom = match s_from s with Some c => c | None => (year, 1, 1) end
+    /\ eto = match s_to s with Some c => c | None => (year, 12, 31) end.
+Proof. exact imported_flight_dates. Qed.
+Print Assumptions C13_recorded_effective_dates.
+
+(* weekday is the calendar's: day 0 = 1970-01-01 is a Thursday (ISO 4); the civil date after a date is the next
+   day number and carries the next weekday; distinct civil dates have distinct day numbers *)
+Theorem C13_weekday_follows_the_calendar :
+  civil_from_days 0 = (1970, 1, 1) /\ weekday 0 = 4
+  /\ (forall z, 0 <= z < sweep_last_day ->
+        civil_from_days (z + 1) = next_date (civil_from_days z)
+        /\ weekday (z + 1) = (if weekday z =? 7 then 1 else weekday z + 1)).
+Proof. exact weekday_follows_calendar. Qed.
+Print Assumptions C13_weekday_follows_the_calendar.
+
+Theorem C13_day_number_injective :
+  forall y m d y' m' d',
+    sweep_first_year <= y <= sweep_last_year -> sweep_first_year <= y' <= sweep_last_year ->
+    valid_date y m d = true -> valid_date y' m' d' = true ->
+    days_from_civil y m d = days_from_civil y' m' d' -> (y, m, d) = (y', m', d').
+Proof. exact days_from_civil_injective. Qed.
+Print Assumptions C13_day_number_injective.
+
 (* ---- the CSV conventions in front of the importer (model/C13_Parse.v) ---- *)
 
 (* a raw row in the plain grammar (digit strings, blank or numeric flight number, day-offset code or
@@ -166,15 +212,15 @@ Theorem C13_raw_row_is_its_parse :
 Proof. exact import_raw_of_parsed. Qed.
 Print Assumptions C13_raw_row_is_its_parse.
 
-(* a raw row is skipped only for a documented reason (evaluated on its own fields) *)
+(* a raw row is skipped only for a documented reason (evaluated on its own fields; specification switches) *)
 Theorem C13_raw_row_skipped_only_for_documented_reason :
-  forall offO offD geod fl excl year w ko kd o d fltno seats k,
-    import_raw offO offD geod fl excl year w ko kd o d = ROutcome fltno seats (Skipped k) ->
-    exists r miles, reason_holds geod fl excl r ko kd o d miles k
+  forall offO offD geod excl year w ko kd o d fltno seats k,
+    import_raw offO offD geod spec_flags excl year w ko kd o d = ROutcome fltno seats (Skipped k) ->
+    exists r miles, documented_reason geod excl r ko kd o d miles k
                     /\ c_carrier r = w_carrier w /\ c_service r = w_service w
                     /\ c_operating r = w_operating w /\ c_genacft r = w_genacft w
                     /\ py_int (w_stops w) = Some (c_stops r).
-Proof. exact raw_skipped_reason_holds. Qed.
+Proof. exact raw_skipped_documented_reason_spec. Qed.
 Print Assumptions C13_raw_row_skipped_only_for_documented_reason.
 
 Theorem C13_int_of_digit_string :
